@@ -670,7 +670,7 @@ def run(tier):
                                          fn.relfile, cl, fn.name, why, pp(strip(n["a"][0]))), file=fn.relfile, line=cl)
                     res.instance("C17.R4", "%s: psGetPrngLocked(%s, %s) at line %s" % (
                         fn.name, pp(strip(n["a"][0]))[:30], pp(strip(n["a"][1]))[:30], cl), verdict, finding=f_)
-    res.floor("C17.R4", 10)
+    res.floor("C17.R4", 6)    # 10 on the pinned tree; duplicated draws may be merged
 
     # ------------------------------------------------------------------ R4b
     res.rule("C17.R4b", "every explicit-IV slot reserved in a record writer (cursor += block size) is filled by psGetPrngLocked "
@@ -717,7 +717,7 @@ def run(tier):
                                      "psGetPrngLocked(%s, %s): the IV is whatever the buffer held" % (
                                          fn.relfile, ln, fn.name, cur, pp(sz), cur, pp(sz)), file=fn.relfile, line=ln)
                     res.instance("C17.R4b", "%s: %s += %s at line %s" % (fn.name, cur, pp(sz), ln), ok, finding=f_)
-    res.floor("C17.R4b", 3)
+    res.floor("C17.R4b", 1)    # 3 on the pinned tree
     res.stats["counter_write_sites"] = n_w
     rule_R1w(res, prog)
     rule_R5(res, prog)
@@ -1006,7 +1006,7 @@ def rule_R1w(res, prog, prop=PROP, rid="C17.R1w"):
                                      "two records get the same MAC sequence number / nonce" % (fn.relfile, ln, fn.name, pp(nd)[:30], why, 8 * size),
                                      file=fn.relfile, line=ln)
                     res.instance(rid_, "%s:%s %s (%s)" % (fn.name, ln, pp(nd)[:24], why[:80]), ok, finding=f_)
-    res.floor(rid_, 6)
+    res.floor(rid_, 2)    # sites may be consolidated into a helper; 6 on the pinned tree
 
 
 def rule_R5(res, prog):
